@@ -41,23 +41,26 @@ def win (s : List Char) (x y : Int) : List Char := sliceNat s x.toNat (y.toNat -
 theorem win_congr (s : List Char) (x y x' y' : Int)
     (h : ∀ k : Int, 0 ≤ k → k < s.length → ((x ≤ k ∧ k < y) ↔ (x' ≤ k ∧ k < y'))) :
     win s x y = win s x' y' := by
-  have h1 := h x.toNat
-  have h2 := h (x.toNat - 1)
-  have h3 := h x'.toNat
-  have h4 := h (x'.toNat - 1)
   unfold win
-  apply sliceNat_congr
   by_cases c : x.toNat < y.toNat ∧ x.toNat < s.length
-  · left
-    have e : x.toNat = x'.toNat := by omega
-    refine ⟨e, ?_⟩
-    have h5 := h (min (x.toNat + (y.toNat - x.toNat)) s.length - 1 : Nat)
-    have h6 := h (min (x.toNat + (y.toNat - x.toNat)) s.length : Nat)
-    have h7 := h (min (x'.toNat + (y'.toNat - x'.toNat)) s.length - 1 : Nat)
-    have h8 := h (min (x'.toNat + (y'.toNat - x'.toNat)) s.length : Nat)
-    omega
-  · right
-    omega
+  · have h1 := h x.toNat
+    have h2 := h (x.toNat - 1)
+    have e : x'.toNat = x.toNat := by omega
+    rw [e]
+    apply List.ext_getElem?; intro i
+    simp only [sliceNat_getElem?]
+    by_cases hi : x.toNat + i < s.length
+    · have h5 := h (x.toNat + i : Nat)
+      have : (i < y.toNat - x.toNat) ↔ (i < y'.toNat - x.toNat) := by omega
+      by_cases hk2 : i < y.toNat - x.toNat
+      · have : i < y'.toNat - x.toNat := by omega
+        simp [*]
+      · have : ¬ i < y'.toNat - x.toNat := by omega
+        simp [*]
+    · have := List.getElem?_eq_none (l := s) (i := x.toNat + i) (by omega)
+      split <;> split <;> simp_all
+  · have h3 := h x'.toNat
+    rw [sliceNat_nil s _ _ (by omega), sliceNat_nil s _ _ (by omega)]
 
 theorem sliceNat_eq_win (s : List Char) (X L : Int) (hX : 0 ≤ X) (hL : 0 ≤ L) :
     sliceNat s X.toNat L.toNat = win s X (X + L) := by
@@ -75,12 +78,12 @@ theorem pySlice_eq_win_none (s : List Char) (a : Int) :
 
 /-- position `k` (in range) belongs to Python's `s[a:b]` -/
 theorem adjIdx_le (n a k : Int) (hn : 0 ≤ n) (hk0 : 0 ≤ k) (hkn : k < n) :
-    (adjIdx n a ≤ k) ↔ (if a < 0 then a + n ≤ k else a ≤ k) := by
-  unfold adjIdx; omega
+    (adjIdx n a ≤ k) ↔ ((a < 0 ∧ a + n ≤ k) ∨ (0 ≤ a ∧ a ≤ k)) := by
+  unfold adjIdx; split <;> split <;> omega
 
 theorem lt_adjIdx (n b k : Int) (hn : 0 ≤ n) (hk0 : 0 ≤ k) (hkn : k < n) :
-    (k < adjIdx n b) ↔ (if b < 0 then k < b + n else k < b) := by
-  unfold adjIdx; omega
+    (k < adjIdx n b) ↔ ((b < 0 ∧ k < b + n) ∨ (0 ≤ b ∧ k < b)) := by
+  unfold adjIdx; split <;> split <;> omega
 
 /-! ### closed forms of what STRING_SLICE computes -/
 
@@ -116,10 +119,13 @@ theorem pg_substr3 (s : List Char) (raw : Bool) (a b : Int)
   have hl : ¬ lenVal .pg s.length raw a b < 0 := by
     simp only [lenVal, indexVal_pg]
     cases raw <;> simp at hg ⊢ <;> omega
-  simp only [substr3V, hl, if_false, pySlice]
+  simp only [substr3V, hl, if_false]
+  rw [pySlice_eq_win]
   congr 2
-  apply sliceNat_congr
-  simp only [lenVal, indexVal_pg, adjIdx]
-  sign_cases a b raw <;> simp [ha, hb] at hg ⊢ <;> omega
+  show win s _ _ = _
+  apply win_congr; intro k hk0 hkn
+  rw [adjIdx_le _ _ _ (by omega) hk0 hkn, lt_adjIdx _ _ _ (by omega) hk0 hkn]
+  simp only [lenVal, indexVal_pg]
+  cases raw <;> simp at hg ⊢ <;> omega
 
 end PonyVerif.Model.SqlStr
